@@ -61,13 +61,16 @@ def _subclasses(mod: Module) -> Dict[str, Set[str]]:
     return out
 
 
-def _transport_var(e: ast.AST) -> Optional[str]:
-    d = dotted(e)
-    if d == "response.status_code":
-        return "int"
-    if d == "response":
-        return "response"
-    return None
+def _transport_var_for(resp: str):
+    def f(e: ast.AST) -> Optional[str]:
+        d = dotted(e)
+        if d == f"{resp}.status_code":
+            return "int"
+        if d == resp:
+            return "response"
+        return None
+
+    return f
 
 
 def run(repo: Repo, rep: Report, tier: str) -> None:
@@ -89,7 +92,6 @@ def run(repo: Repo, rep: Report, tier: str) -> None:
     tr = repo.func("core.http_transport:HttpxTransport.request")
     cfg = CFG(tr.node)
     dom = cfg.dominators()
-    ev = Evaluator(_transport_var, helpers)
     raises = [n for n in cfg.nodes if isinstance(n.ast, ast.Raise) and not n.copy]
     rep.require(bool(raises), "R6.1: HttpxTransport.request has no raise statement (anchor vanished)")
     raised_for: Dict[int, str] = {}
@@ -98,6 +100,12 @@ def run(repo: Repo, rep: Report, tier: str) -> None:
     send_nodes = [n for n in cfg.nodes if n.ast is not None and n.kind == "stmt" and any(
         isinstance(c.func, ast.Attribute) and c.func.attr == "request" and "_client" in norm(c.func.value) for c in calls_in(n.ast))]
     rep.require(len(send_nodes) == 1, f"R6.1: expected one send call in HttpxTransport.request, found {len(send_nodes)}")
+    resp_var = "response"
+    if send_nodes and isinstance(send_nodes[0].ast, (ast.Assign, ast.AnnAssign)):
+        tg = send_nodes[0].ast.targets[0] if isinstance(send_nodes[0].ast, ast.Assign) else send_nodes[0].ast.target
+        if isinstance(tg, ast.Name):
+            resp_var = tg.id
+    ev = Evaluator(_transport_var_for(resp_var), helpers)
     outcome: Dict[int, Tuple[str, str]] = {}
     undecided: List[str] = []
     if send_nodes:
@@ -142,7 +150,7 @@ def run(repo: Repo, rep: Report, tier: str) -> None:
     for r in raises:
         call = r.ast.exc if isinstance(r.ast.exc, ast.Call) else None  # type: ignore[union-attr]
         kws = {k.arg: norm(k.value) for k in call.keywords} if call else {}
-        if kws.get("status_code") == "response.status_code" and kws.get("response") == "response":
+        if kws.get("status_code") == f"{resp_var}.status_code" and kws.get("response") == resp_var:
             rep.ok("R6.5", f"{tr.module.relpath}:HttpxTransport.request raise args", "status_code=response.status_code, response=response", tr.loc(r.ast))
         else:
             rep.violation("R6.5", f"{tr.module.relpath}:HttpxTransport.request raise args", f"{tr.fq}|raise-args|{norm(r.ast)}",
@@ -213,12 +221,16 @@ def _simulate(cfg: CFG, start: int, code: int, ev: Evaluator, undecided: List[st
                 if v is not None:
                     env[tgt.id] = env.get(v, v)
                 elif isinstance(nd.ast.value, ast.IfExp):
-                    t = ev.truth(nd.ast.value.test, code)
-                    if t is not None:
-                        b = nd.ast.value.body if t else nd.ast.value.orelse
-                        v2 = dotted(b)
-                        if v2:
-                            env[tgt.id] = env.get(v2, v2)
+                    b: Optional[ast.AST] = nd.ast.value
+                    while isinstance(b, ast.IfExp):
+                        t = ev.truth(b.test, code)
+                        if t is None:
+                            undecided.append(norm(b.test))
+                            return ("?", "")
+                        b = b.body if t else b.orelse
+                    v2 = dotted(b) if b is not None else None
+                    if v2:
+                        env[tgt.id] = env.get(v2, v2)
         if nd.kind in ("exit", "raise_exit"):
             return ("return" if nd.kind == "exit" else "raise", "?")
         if nxt is None:
@@ -232,19 +244,28 @@ def _simulate(cfg: CFG, start: int, code: int, ev: Evaluator, undecided: List[st
 
 def _alias_generator_rules(fn: Function, helpers: Dict[str, ast.AST], rep: Report) -> Set[int]:
     """Checks base-class choice; returns the set of codes for which an alias class is generated."""
-    ev = Evaluator(lambda e: "int" if isinstance(e, ast.Name) and e.id == "code" else None, helpers)
+    from sa.match import Locals
+
+    L = Locals(fn.node)
+    # the status code: a loop variable of the function (or an int-annotated parameter)
+    code_vars = {name for name, ds in L.defs.items() if any(k == "for" for k, _, _ in ds)}
+    code_vars |= {a.arg for a in fn.node.args.args if a.annotation is not None and norm(a.annotation) == "int"}  # type: ignore[attr-defined]
+    ev = Evaluator(lambda e: "int" if isinstance(e, ast.Name) and e.id in code_vars else None, helpers)
+    # the base-class variable: the one that is assigned the names of the error base classes
+    base_vars = {nd.targets[0].id for nd in own_nodes(fn.node) if isinstance(nd, ast.Assign) and isinstance(nd.targets[0], ast.Name)
+                 and const_str(nd.value) in ("ClientError", "ServerError")}
     cfg = CFG(fn.node)
     dom = cfg.dominators()
     sub0 = f"{fn.module.relpath}:{fn.qualname}"
     base_sets: Dict[str, Set[int]] = {}
     n_assign = 0
     for nd in cfg.nodes:
-        if isinstance(nd.ast, ast.Assign) and isinstance(nd.ast.targets[0], ast.Name) and nd.ast.targets[0].id == "base_class":
+        if isinstance(nd.ast, ast.Assign) and isinstance(nd.ast.targets[0], ast.Name) and nd.ast.targets[0].id in base_vars:
             val = const_str(nd.ast.value)
             if val is None:
                 continue
             n_assign += 1
-            gs = [(g, p) for g, p in guards(cfg, nd.id, dom) if g.kind == "test" and "code" in norm(g.ast)]
+            gs = [(g, p) for g, p in guards(cfg, nd.id, dom) if g.kind == "test" and any(isinstance(x, ast.Name) and x.id in code_vars for x in ast.walk(g.ast))]
             codes = set(DOMAIN)
             for g, pol in gs:
                 if pol is None:
@@ -329,11 +350,18 @@ def _dispatch_rules(gen: Function, helpers: Dict[str, ast.AST], rep: Report, con
         return None
 
     closures: List[Tuple[int, Tuple]] = []
+    _ev2 = Evaluator(lambda e: "str" if isinstance(e, ast.Attribute) and e.attr == "status_code" and isinstance(e.value, ast.Name) else None, helpers, consts)
+
+    def _is_2xx_test(t: ast.AST) -> bool:
+        if not any(isinstance(x, ast.Attribute) and x.attr == "status_code" for x in ast.walk(t)):
+            return False
+        parts = list(t.values) if isinstance(t, ast.BoolOp) and isinstance(t.op, ast.And) else [t]
+        return any(any(isinstance(x, ast.Attribute) and x.attr == "status_code" for x in ast.walk(c)) and _ev2.codes_where(c, True) == set(range(200, 300)) for c in parts)
 
     def transfer(node, st, label):
         arm, depth, has_raise, has_return, g2 = st
         a = node.ast
-        if node.kind == "test" and a is not None and "startswith('2')" in norm(a):
+        if node.kind == "test" and a is not None and _is_2xx_test(a):
             if label == "true":
                 g2 = "2xx"
             elif label == "false":
@@ -395,11 +423,15 @@ def _dispatch_rules(gen: Function, helpers: Dict[str, ast.AST], rep: Report, con
                               "a declared non-2xx status arm can return a value / lacks a raise", loc)
 
     # set of codes for which an alias raise is emitted: guards of the `raise {alias}` write
+    from sa.match import Locals as _L, match as _match
+
+    GL = _L(gen.node)
+    int_vars = {name for name, _, _ in GL.bound_from("int(ANY_r.status_code)")}
+
     def var(e: ast.AST) -> Optional[str]:
-        d = dotted(e)
-        if d in ("status_code_val",):
+        if isinstance(e, ast.Name) and e.id in int_vars:
             return "int"
-        if d in ("resp_ir.status_code", "primary_success_ir.status_code"):
+        if isinstance(e, ast.Attribute) and e.attr == "status_code" and isinstance(e.value, ast.Name):
             return "str"
         return None
 
